@@ -22,7 +22,7 @@
 /* ------------------------------------------------------------------------------------------------ */
 /* alphabets                                                                                         */
 
-static const int req_codes[] = {1, 2, 3, 4, 5, 6, 7, 8, 31};
+static const int req_codes[] = {1, 2, 3, 4, 5, 8, 6, 7, 31}; /* quick request product: the first six */
 #define N_REQ_CODES 9
 static const int edge_codes[] = {1, 2, 3, 4, 5, 6, 7, 8, 31, 0, 0x20, 0xC0, 0xE1};
 #define N_EDGE_CODES 13
@@ -215,6 +215,8 @@ struct casedef {
   int table, dest, type, code, tkl, path, optset_k, optset;
 };
 
+static const int edge_paths[] = {0, 1, 2, 5}; /* edge product: none, a, a/b, .well-known/core */
+
 struct combo {
   int type, dest;
 };
@@ -228,7 +230,7 @@ struct space {
   char name[96];
   int edge;      /* 0: request product, 1: edge product */
   int k;         /* option subsets of size <= k */
-  int ntok, ncode, npath;
+  int ntok, tok_off, ncode, npath;
   const int *codes;
   int ntab;
   int tab[16];   /* table indices */
@@ -276,8 +278,10 @@ decode(const struct space *s, uint64_t idx, struct casedef *c) {
   c->optset = (int)(idx % (uint64_t)n_optsets[s->k]);
   idx /= (uint64_t)n_optsets[s->k];
   c->path = (int)(idx % (uint64_t)s->npath);
+  if (s->edge)
+    c->path = edge_paths[c->path];
   idx /= (uint64_t)s->npath;
-  c->tkl = tok_lens[idx % (uint64_t)s->ntok];
+  c->tkl = tok_lens[s->tok_off + (int)(idx % (uint64_t)s->ntok)];
   idx /= (uint64_t)s->ntok;
   c->code = s->codes[idx % (uint64_t)s->ncode];
   idx /= (uint64_t)s->ncode;
@@ -1053,14 +1057,29 @@ main(int argc, char **argv) {
     return 2;
   }
 
+#ifdef __SANITIZE_ADDRESS__
+  const int asan = 1;
+#else
+  const int asan = 0;
+#endif
+  struct space *s;
+  /* stage layout: the sanitizer build carries the <=2-option request product and the edge product (both tiers);
+   * the plain -O2 build carries the <=3-option request product, thorough only */
+  if (!asan && !T) {
+    if (vx_replay_path())
+      return 2; /* nothing of this stage runs in the quick tier */
+    vx_ev_rule("(fast stage: thorough tier only)");
+    return vx_finish();
+  }
+
   /* request product */
-  struct space *s = &spaces[n_spaces++];
+  s = &spaces[n_spaces++];
   memset(s, 0, sizeof *s);
-  s->k = T ? 3 : 2;
-  snprintf(s->name, sizeof s->name, "requests:CON,NON,NON-mcast:opts<=%d", s->k);
+  s->k = asan ? 2 : 3;
+  snprintf(s->name, sizeof s->name, "requests:CON,NON,NON-mcast:opts<=%d:%s", s->k, T ? "full" : "quick");
   s->ntok = T ? 3 : 2;
   s->codes = req_codes;
-  s->ncode = N_REQ_CODES;
+  s->ncode = T ? N_REQ_CODES : 6;
   s->npath = N_PATHS;
   s->ntab = N_TABLES;
   for (int i = 0; i < N_TABLES; i++)
@@ -1068,29 +1087,24 @@ main(int argc, char **argv) {
   s->both_dest_all = T;
   space_finish(s);
 
-  /* edge product: all four types, invalid classes, Empty, 9-byte token */
-  s = &spaces[n_spaces++];
-  memset(s, 0, sizeof *s);
-  s->edge = 1;
-  s->k = T ? 2 : 1;
-  snprintf(s->name, sizeof s->name, "edge:4types:13codes:tkl0-9:opts<=%d", s->k);
-  s->ntok = 4;
-  s->codes = edge_codes;
-  s->ncode = N_EDGE_CODES;
-  s->npath = T ? N_PATHS : 3;
-  if (T) {
-    s->ntab = N_TABLES;
-    for (int i = 0; i < N_TABLES; i++)
-      s->tab[i] = i;
-  } else {
-    s->ntab = 4;
-    s->tab[0] = 0;
-    s->tab[1] = 2;
-    s->tab[2] = 6;
-    s->tab[3] = 9;
+  /* edge product: all four types x both destinations, invalid classes, Empty, 9-byte token */
+  if (asan) {
+    s = &spaces[n_spaces++];
+    memset(s, 0, sizeof *s);
+    s->edge = 1;
+    s->k = T ? 2 : 1;
+    snprintf(s->name, sizeof s->name, "edge:4types:13codes:tkl0-9:opts<=%d", s->k);
+    s->ntok = 4;
+    s->codes = edge_codes;
+    s->ncode = N_EDGE_CODES;
+    s->npath = T ? 4 : 3;
+    static const int et[] = {0, 2, 6, 9, 5};
+    s->ntab = T ? 5 : 4;
+    for (int i = 0; i < s->ntab; i++)
+      s->tab[i] = et[i];
+    s->both_dest_all = 1;
+    space_finish(s);
   }
-  s->both_dest_all = 1;
-  space_finish(s);
 
   for (int i = 0; i < n_spaces; i++)
     if (vxp_replay_if_match(spaces[i].name, one_case, &spaces[i]))
